@@ -117,3 +117,117 @@ func init() {
 		Outside: "ranks 5-6 (rank 4 only with sizes <= 2), dimension sizes above 3, Concat of more than 3 operands",
 	})
 }
+
+func sItems(key string, vals []string, base []Item) []Item {
+	var out []Item
+	for _, v := range vals {
+		for _, it := range base {
+			s := map[string]string{key: v}
+			for k, x := range it.S {
+				s[k] = x
+			}
+			out = append(out, Item{P: it.P, S: s})
+		}
+	}
+	return out
+}
+
+func pairItems(lo, hi int, maxdim int64) []Item {
+	var out []Item
+	for a := lo; a <= hi; a++ {
+		for b := lo; b <= hi; b++ {
+			out = append(out, Item{P: map[string]int64{"ra": int64(a), "rb": int64(b), "maxdim": maxdim}})
+		}
+	}
+	return out
+}
+
+var unaryOps = []string{"Exp", "Log", "Sin", "Cos", "Tan", "Sinh", "Cosh", "Tanh"}
+
+func unaryItems(lo, hi int, maxdim int64) []Item {
+	base := rankItems(lo, hi, maxdim, map[string]int64{"cmode": 0})
+	out := sItems("op", unaryOps, base)
+	for cm := int64(0); cm <= 7; cm++ {
+		out = append(out, sItems("op", []string{"Pow"}, rankItems(lo, hi, maxdim, map[string]int64{"cmode": cm}))...)
+	}
+	for _, cm := range []int64{0, 1, 4} {
+		out = append(out, sItems("op", []string{"Scale"}, rankItems(lo, hi, maxdim, map[string]int64{"cmode": cm}))...)
+	}
+	return out
+}
+
+func init() {
+	allChecks = append(allChecks, &Check{
+		ID: "C03", Level: "model_checking",
+		Harnesses: []Harness{
+			{Name: "C03_unary", Pkg: "zzh", Func: "H_C03_unary", Reach: []string{"done"},
+				What: "Scale/Pow/Exp/Log/trig/hyperbolic: every element is the scalar function of the element at the same position (Pow: symbolic exponent and -2,-1,0,1/2,1,2,3)",
+				Items: tiered(func() []Item { return unaryItems(0, 2, 2) }, func() []Item { return mergeItems(unaryItems(0, 3, 3), unaryItems(4, 4, 2)) })},
+			{Name: "C03_binary", Pkg: "zzh", Func: "H_C03_binary", Reach: []string{"done"},
+				What: "Add/Sub/Mul/Div over every broadcast-compatible shape pair vs NumPy index map; equal to broadcasting explicitly first",
+				Items: tiered(func() []Item { return sItems("op", []string{"Add", "Sub", "Mul", "Div"}, pairItems(0, 2, 2)) },
+					func() []Item {
+						return mergeItems(sItems("op", []string{"Add", "Sub", "Mul", "Div"}, pairItems(0, 3, 3)), sItems("op", []string{"Add", "Div"}, pairItems(4, 4, 2)))
+					})},
+			{Name: "C03_cmp", Pkg: "zzh", Func: "H_C03_cmp", Reach: []string{"done"},
+				What: "six comparisons yield exactly the 0/1 indicator; ElMax/ElMin; Equals iff all positions equal (pairs identical or apart by > 1e-200)",
+				Items: tiered(func() []Item {
+					return sItems("op", []string{"Eq", "Ne", "Gt", "Ge", "Lt", "Le", "ElMax", "ElMin", "Equals"}, rankItems(0, 2, 2, nil))
+				}, func() []Item {
+					return sItems("op", []string{"Eq", "Ne", "Gt", "Ge", "Lt", "Le", "ElMax", "ElMin", "Equals"}, mergeItems(rankItems(0, 3, 3, nil), rankItems(4, 4, 2, nil)))
+				})},
+		},
+		Assumptions: []string{numericModel,
+			"math.Exp/Log/Sin/... are uninterpreted functions: which function is applied to which element is checked, not the function's numerics",
+			"Eq/Ne/Equals: operand pairs are identical or differ by more than 1e-200 (as the property states)"},
+		Outside: "ranks 5-6 (rank 4 only with sizes <= 2), dimension sizes above 3; bit-level float behaviour (signed zero, NaN, overflow)",
+	})
+}
+
+func pairItemsLo(lo, hi int, maxdim int64) []Item {
+	var out []Item
+	for a := lo; a <= hi; a++ {
+		for b := lo; b <= hi; b++ {
+			out = append(out, Item{P: map[string]int64{"ra": int64(a), "rb": int64(b), "maxdim": maxdim}})
+		}
+	}
+	return out
+}
+
+var redOps = []string{"Sum", "Max", "Min", "Avg", "Mean", "Var", "Std"}
+
+func init() {
+	allChecks = append(allChecks, &Check{
+		ID: "C04", Level: "model_checking",
+		Harnesses: []Harness{
+			{Name: "C04_matmul", Pkg: "zzh", Func: "H_C04_matmul", Reach: []string{"done"},
+				What: "MatMul vs explicit sum of products with broadcast batch indexing; every m,n,k and batch-shape pair is solver-chosen",
+				Items: tiered(func() []Item { return pairItemsLo(2, 3, 2) }, func() []Item { return mergeItems(pairItemsLo(2, 4, 2), pairItemsLo(2, 3, 3), pairItemsLo(5, 5, 2)) })},
+			{Name: "C04_dot", Pkg: "zzh", Func: "H_C04_dot", Reach: []string{"done"},
+				What: "Dot contracts the last dimension after broadcasting the leading ones",
+				Items: tiered(func() []Item { return pairItemsLo(1, 3, 2) }, func() []Item { return mergeItems(pairItemsLo(1, 4, 2), pairItemsLo(1, 3, 3)) })},
+			{Name: "C04_transpose", Pkg: "zzh", Func: "H_C04_transpose", Reach: []string{"done"},
+				What: "Transpose swaps the last two dimensions",
+				Items: tiered(func() []Item { return rankItems(2, 3, 3, nil) }, func() []Item { return mergeItems(rankItems(2, 4, 3, nil), rankItems(5, 5, 2, nil)) })},
+			{Name: "C04_identities", Pkg: "zzh", Func: "H_C04_identities", Reach: []string{"done"},
+				What: "A.I = A and (A.B)^T = B^T.A^T as polynomial identities over symbolic matrices",
+				Items: tiered(func() []Item { return items(map[string]int64{"ra": 2, "maxdim": 3}, map[string]int64{"ra": 3, "maxdim": 2}) },
+					func() []Item { return items(map[string]int64{"ra": 2, "maxdim": 4}, map[string]int64{"ra": 3, "maxdim": 3}, map[string]int64{"ra": 4, "maxdim": 2}) })},
+		},
+		Assumptions: []string{numericModel},
+		Outside:     "rank 6 (rank 5 only with sizes <= 2), sizes above 3 (4 for plain matrices in the identities)",
+	})
+	allChecks = append(allChecks, &Check{
+		ID: "C05", Level: "model_checking",
+		Harnesses: []Harness{
+			{Name: "C05_full", Pkg: "zzh", Func: "H_C05_full", Reach: []string{"done"},
+				What: "Sum/Max/Min/Avg/Mean/Var/Std over all elements; extrema by the bound-and-attained specification, Std by r>=0 and r^2=Var",
+				Items: tiered(func() []Item { return sItems("op", redOps, rankItems(0, 2, 3, nil)) }, func() []Item { return sItems("op", redOps, mergeItems(rankItems(0, 3, 3, nil), rankItems(4, 4, 2, nil))) })},
+			{Name: "C05_along", Pkg: "zzh", Func: "H_C05_along", Reach: []string{"done"},
+				What: "the seven Along forms: shape with dim removed, every element the statistic of its fibre",
+				Items: tiered(func() []Item { return sItems("op", redOps, rankItems(1, 2, 3, nil)) }, func() []Item { return sItems("op", redOps, mergeItems(rankItems(1, 3, 3, nil), rankItems(4, 4, 2, nil))) })},
+		},
+		Assumptions: []string{numericModel, "math.Sqrt is an uninterpreted function with the contract sqrt(v)>=0, sqrt(v)^2=v for v>=0"},
+		Outside:     "ranks 5-6 (rank 4 only with sizes <= 2), sizes above 3",
+	})
+}
